@@ -277,17 +277,19 @@ class Renderer:
         nd = self.n[b]
         start = self.line
         for j, s in enumerate(nd["ss"]):
+            prev_end = self.line
             self.nl(indent)
             at = self.line
             self.stmt(s, indent)
-            self.disambiguate(j, at)
+            self.disambiguate(j, at, prev_end)
         nd["ln"] = [start, self.line]
 
-    def disambiguate(self, j, at):
+    def disambiguate(self, j, at, prev_end):
         """a statement starting with '(' would continue the previous statement's
-        expression (f\n(g)() is one call): terminate the previous one with ';'"""
-        if j > 0 and self.lines[at - 1].lstrip().startswith("("):
-            self.lines[at - 2] += ";"
+        expression (f\n(g)() is one call): terminate the previous one with ';'
+        (on the line where it ended - lines in between may be comments)"""
+        if j > 0 and self.lines[at - 1].lstrip().startswith("(") and not self.lines[prev_end - 1].rstrip().endswith(";"):
+            self.lines[prev_end - 1] += ";"
 
     def stmt(self, s, indent):
         nd = self.n[s]
@@ -392,12 +394,13 @@ class Renderer:
         nd = self.n[root]
         first = True
         for j, s in enumerate(nd["ss"]):
+            prev_end = self.line
             if not first:
                 self.nl(0)
             first = False
             at = self.line
             self.stmt(s, 0)
-            self.disambiguate(j, at)
+            self.disambiguate(j, at, prev_end)
         nd["ln"] = [1, self.line]
         return "\n".join(self.lines) + "\n"
 
